@@ -24,10 +24,14 @@ MANIFEST = dict(
          'samples / repeated values change neither result, incl. concrete invariance of the maximum absolute load); N10_le_N50_le_N90 (P_RAM: knee '
          'shifted by 10^(lg f25 - (0.8 beta - 2) 0.08)) and N10_le_N50_le_N90_RAJ (life * 10^((lg f25 - (0.8 beta - 2) 0.155) |1/d|)) from beta '
          'antitone; contracts_satisfiable + instance_not_degenerate; row layout of per-point data (Assess/Layout.v): knee_rows_tiled_pointwise (rows ordered '
-         '(hysteresis, point): tiling the per-point knees gives row h*n+i the knee of point i), knee_rows_repeated_refuted, uniform_knee_hides_layout.  The stage contracts (cycle structure under scaling / refinement, damage '
+         '(hysteresis, point): tiling the per-point knees gives row h*n+i the knee of point i), knee_rows_repeated_refuted, uniform_knee_hides_layout; decisions of the HCM in a batch '
+         '(Assess/Decide.v: every branch is decided by comparing two absolute loads / load extents of the FIRST point with an absolute tolerance and applied to all points): '
+         'hcm_exact_decision_scale_invariant, hcm_relative_tolerance_scale_invariant, hcm_decision_transfers_when_separated (the first point\'s decision is the decision of point i when the compared '
+         'quantities are equal or differ by more than the tolerance at both points), hcm_absolute_tolerance_not_scale_invariant_refuted (for every absolute tolerance > 0 and every pair of different '
+         'quantities some positive load ratio of the first point makes the batch decide differently from the point itself), hcm_separation_satisfiable.  The stage contracts (cycle structure under scaling / refinement, damage '
          'parameter not smaller for larger loads, curve N antitone in P and isotone in the knee, accumulation antitone, gamma_L, beta antitone, which '
-         'aggregator the code uses, which point\'s knee a row of the batch table uses) are checked on the implementation\'s stage outputs on every run; the property itself (P_RAM and P_RAJ, lifetime and '
-         'infinite-life verdict) is decided by relations between assessment calls on every run.',
+         'aggregator the code uses, which point\'s knee a row of the batch table uses, hystereses of a batch point = those of its single assessment wherever the compared loads are separated at the first point and at the point) are checked on the implementation\'s stage outputs on every run; the property itself (P_RAM and P_RAJ, lifetime and '
+         'infinite-life verdict) is decided by relations between assessment calls on every run, including batches in which one point (the first, or a later one) is almost unloaded (load ratio down to 1e-10, thorough 1e-15).',
     note=common.TB_NOTE + 'the stages (HCM, binned notch law, P_RAM/P_RAJ, curves, accumulation) are abstract in Coq: their contracts are checked on sampled '
          'stage outputs, not proved here (C04/C05/C07/C09 model them); the P_RAJ crack-opening loop and its class summation are outside the model except for '
          'the dependence on the shared class maximum; float rounding is outside the theorems (relations compared at 1e-9 relative).',
@@ -251,6 +255,86 @@ def gen_items(rng, j, thorough):
     return items
 
 
+# ---- ratio spread: one co-assessed point is almost unloaded (the quantifier says "any positive load ratios")
+
+HCM_TOL = 1e-12    # absolute tolerance of the five load comparisons of FKMNonlinearDetector (eps of Assess/Decide.v); the HCM takes its
+                   # decisions from the loads of the FIRST point of a batch and applies them to all points
+
+
+def gen_spread(rng, j, ref, skind, thorough):
+    """relation instances (kind 'batch') for a batch in which one point carries a load ratio of 1e-7.5 .. 1e-10 (thorough: 1e-3 .. 1e-15.5)
+    relative to the reference point: at the first position (5 of 7 cases) or at a later one.  Calls with calculate_P_RAJ=False (the P_RAJ
+    branch of such a batch often raises on the unchanged tree: known finding praj-batch-near-zero-point), thorough: every fourth case with
+    both.  A normal load distribution with an absolute s_L is replaced by the blanket factor: gamma_L = (L_max + alpha s_L) / L_max of
+    an almost unloaded point is not a description of a load scatter (2 s_L > L_max, see notes, observation 6)."""
+    p = ref['params']
+    q = dict(p, s_L=None) if p.get('s_L') is not None else dict(p)
+    both = thorough and j % 4 == 3
+    want = ['ram', 'raj'] if both else ['ram']
+    n = rng.randint(2, 4)
+    ratios = [round(rng.uniform(0.2, 3.0), 2) for _ in range(n)]
+    t = 0 if j % 3 != 2 else rng.randrange(1, n)
+    i0 = rng.choice([k for k in range(n) if k != t])
+    ratios[i0] = 1.0
+    if thorough and not both and rng.random() < 0.4:
+        e = rng.uniform(3.0, 15.5)
+    else:
+        e = rng.uniform(7.5, 10.0)
+    ratios[t] = float('%.3g' % 10 ** -e)
+    G = ref['G']
+    Gs = gen_G_per_point(rng, n, i0, G, False) if rng.random() < 0.3 else G
+    single = lambda k: {'seq': times(ref['seq'], ratios[k]) if k != i0 else ref['seq'], 'ratios': None,
+                        'G': Gs[k] if isinstance(Gs, list) else G, 'params': q, 'want': want}
+    b = {'seq': ref['seq'], 'ratios': ratios, 'G': Gs, 'params': q, 'want': want}
+    tag = {'tiny_at': t, 'log10_ratio': round(-e, 2), 'P_RAJ': both}
+    pts = [i0] + ([t] if (t != 0 or thorough) else []) + ([k for k in range(n) if k not in (i0, t)] if thorough else [])
+    return [{'kind': 'batch', 'specs': [single(k), b], 'i': k, 'skind': skind, 'spread': tag} for k in pts]
+
+
+def decision_margins(seq):
+    """The quantities the HCM compares are absolute loads and absolute load differences (extents).  For the samples of `seq` and the zero
+    sample prepended for the first run (a superset of what is really compared): -> (d_min, tie, tie_base) in units of the sequence;
+    d_min = smallest difference between two distinct quantities of the same kind, tie = two extents (or absolute loads) agree up to
+    rounding (difference <= tie_base = 4 ulp of the largest load) without being the same float"""
+    xs = sorted(set([0.0] + [float(v) for v in seq]))
+    m = max(abs(v) for v in xs)
+    tie_base = 4 * 2.0 ** -52 * m
+    X = np.asarray(xs)
+    A = np.sort(np.abs(X))
+    iu = np.triu_indices(len(X), 1)
+    E = np.sort(np.abs(X[:, None] - X[None, :])[iu])
+    d_min, tie = float('inf'), False
+    for fam, exact_is_tie in ((A, False), (E, True)):
+        g = np.diff(fam)
+        big = g[g > tie_base]
+        if big.size:
+            d_min = min(d_min, float(big.min()))
+        small = g[g <= tie_base]
+        if small.size and (exact_is_tie or (small > 0).any()):
+            tie = True
+    return d_min, tie, tie_base
+
+
+def eff_factor(spec, k):
+    """effective load of point k of a batch spec / load of the reference sequence: ratio * gamma_L(L_max of the point) * c"""
+    r = spec['ratios'][k]
+    M = r * max(abs(v) for v in spec['seq'])
+    cfac = dict(fkmnl.BASE_PARAMS, **{k_: v for k_, v in spec['params'].items() if v is not None})['c']
+    return r * gamma_model(spec['params'], M) * cfac
+
+
+def decisions_clear(seq, rho, tol=HCM_TOL):
+    """every comparison of the HCM on the loads rho * seq is decided as for exact arithmetic on seq (Decide.decision_transfers_when_separated):
+    distinct quantities differ by more than the tolerance (factor 4 for rounding), ties are absorbed by it"""
+    d_min, tie, tie_base = decision_margins(seq)
+    return rho * d_min >= 4 * tol and (not tie or rho * tie_base <= tol / 2)
+
+
+def sub_tolerance(seq, rho, tol=HCM_TOL):
+    """some distinct pair of compared quantities of the loads rho * seq differs by less than (4 x) the absolute tolerance"""
+    return rho * decision_margins(seq)[0] < 4 * tol
+
+
 # ------------------------------------------------------------------ judging one relation instance
 
 def edge_dist(seq):
@@ -267,6 +351,8 @@ def inadmissible_point(b):
         G = b['G']
         singles = [{'seq': times(b['seq'], r), 'ratios': None, 'G': G[k] if isinstance(G, list) else G, 'params': b['params']}
                    for k, r in enumerate(b['ratios'])]
+        if b.get('want'):
+            singles = [dict(sp, want=b['want']) for sp in singles]
         outs = fkmnl.run_jobs([('assess', sp) for sp in singles])
         _ALONE[kb] = any('error' in o and not o['error'].startswith('worker') for o in outs)
     return _ALONE[kb]
@@ -296,7 +382,7 @@ def judge(item, sums):
             if m in a and m in b and not close(a[m][0], b[m][i], RT_SOLVER if m.startswith('RAJ') else RT):
                 out.append((W_BATCH, m, {'single': a[m][0], 'batch': b[m][i]}))
         for m in ('RAM_inf', 'RAJ_inf'):
-            if a[m][0] != b[m][i]:
+            if m in a and m in b and a[m][0] != b[m][i]:      # absent: the damage parameter was not requested (spec key want)
                 out.append((W_BATCH, m, {'single': a[m][0], 'batch': b[m][i]}))
     elif k == 'refine':
         b = sums[1]
@@ -330,7 +416,7 @@ def judge(item, sums):
 def nontrivial(item, sums):
     """a relation instance that exercises the mechanism: finite life on at least one side (damage was accumulated)"""
     try:
-        return any(math.isfinite(s[m][0]) and s[m][0] > 0 for s in sums if 'error' not in s for m in ('RAM_life', 'RAJ_life'))
+        return any(math.isfinite(s[m][0]) and s[m][0] > 0 for s in sums if 'error' not in s for m in ('RAM_life', 'RAJ_life') if m in s)
     except Exception:
         return False
 
@@ -488,7 +574,89 @@ def cls_unsorted_node_ids(d):
     return bool(ids) and list(ids) != sorted(ids)
 
 
+def _struct_differs(a, b, i):
+    """output of the HCM stage for point i of the batch summary b vs the single summary a: hystereses (number, closed flags, runs, loads)
+    and their stresses / strains (which branch of the stress-strain path a sample was put on is an HCM decision as well)"""
+    for t in ('RAM', 'RAJ'):
+        if (t + '_col') not in a or (t + '_col') not in b:
+            continue
+        if a[t + '_n_hyst'] != b[t + '_n_hyst']:
+            return True
+        for col in ('is_closed_hysteresis', 'run_index', 'loads_min', 'loads_max', 'S_a', 'S_m', 'epsilon_a'):
+            x, y = a[t + '_col'][col][0], b[t + '_col'][col][i]
+            if len(x) != len(y) or not all(close(u, v, 1e-12) or (math.isnan(u) and math.isnan(v)) for u, v in zip(x, y)):
+                return True
+    return False
+
+
+def _raised(it, pred, target):
+    """the batch relation instance `it` with the ratio of every point k for which pred(k) holds multiplied up so that target(k) is reached"""
+    bs = it['specs'][1]
+    ratios = list(bs['ratios'])
+    for k in range(len(ratios)):
+        if pred(k):
+            ratios[k] = ratios[k] * target(k)
+    i = it['i']
+    G = bs['G']
+    single = dict(it['specs'][0], seq=times(bs['seq'], ratios[i]), G=G[i] if isinstance(G, list) else G)
+    return dict(it, specs=[single, dict(bs, ratios=ratios)])
+
+
+def cls_hcm_abs_tolerance(d):
+    """P_RAM quantity of a batch point where the first point's loads, or the point's own, are so small that two DIFFERENT compared loads /
+    load extents differ by less than (4 x) the absolute tolerance 1e-12 of the HCM's comparisons (FKMNonlinearDetector: `> load_max_seen+1e-12`,
+    `< previous_load_extent-1e-12` ... on the loads of the FIRST point): the decisions taken for the batch are not the decisions of the point's
+    single assessment.  Decided by (a) the input (sub_tolerance at point 0 or i), (b) the output of the HCM stage for the point (hystereses, their
+    stresses and strains) differs between batch and single, (c) the difference vanishes when the sub-tolerance points are loaded just enough (still almost unloaded) to clear the tolerance"""
+    it = d['item']
+    if it['kind'] != 'batch' or not d['measure'].startswith('RAM'):
+        return False
+    bs, i = it['specs'][1], it['i']
+    seq = bs['seq']
+    sub = [k for k in sorted({0, i}) if sub_tolerance(seq, eff_factor(bs, k))]
+    if not sub:
+        return False
+    a, b = fkmnl.run_jobs([('assess', s_) for s_ in it['specs']])
+    if 'error' in a or 'error' in b or not _struct_differs(a, b, i):
+        return False
+    d_min = decision_margins(seq)[0]
+    it2 = _raised(it, lambda k: k in sub, lambda k: 8 * HCM_TOL / (eff_factor(bs, k) * d_min))
+    outs = fkmnl.run_jobs([('assess', s_) for s_ in it2['specs']])
+    viol, rej = judge(it2, outs)
+    d['after raising the sub-tolerance points'] = {'ratios': it2['specs'][1]['ratios'], 'violations': [wname(w, m) for w, m, _ in viol]}
+    return not rej and not any(m.startswith('RAM') for w, m, _ in viol)
+
+
+SB_TOL = 1e-4      # absolute tolerance (and size of the secant method's first step) of the Seeger-Beste solvers that fill the P_RAJ look-up tables
+
+
+def cls_praj_batch_near_zero_point(d):
+    """the call for a batch raises in the P_RAJ branch (RuntimeError of a Newton iteration) although every point is accepted alone and the
+    P_RAM branch of the same batch runs, and the batch contains a point whose maximum effective load is below the absolute tolerance 1e-4 of
+    the Seeger-Beste table solver: solved together with the other points (vectorised secant method, absolute first step 1e-4, joint
+    termination) the table of that point is filled with values of the wrong magnitude (stress of 6.75 for a load of 4e-7), the
+    crack-opening computation of P_RAJ then fails on nan.  Decided by the input, and: the same batch runs when these points are loaded to
+    1e-2"""
+    it = d['item']
+    if it['kind'] != 'batch' or d.get('measure') != 'call':
+        return False
+    bs = it['specs'][1]
+    M = max(abs(v) for v in bs['seq'])
+    near0 = [k for k in range(len(bs['ratios'])) if eff_factor(bs, k) * M < SB_TOL]
+    if not near0:
+        return False
+    ram_only = fkmnl.run_jobs([('assess', dict(bs, want=['ram']))])[0]
+    if 'error' in ram_only:
+        return False
+    it2 = _raised(it, lambda k: k in near0, lambda k: 1e-2 / (eff_factor(bs, k) * M))
+    outs = fkmnl.run_jobs([('assess', s_) for s_ in it2['specs']])
+    d['after raising the near-zero points'] = {'ratios': it2['specs'][1]['ratios'], 'errors': [o.get('error') for o in outs]}
+    return not any('error' in o for o in outs)
+
+
 def register_classes(res):
+    res.classes['hcm_abs_tolerance_first_node'] = cls_hcm_abs_tolerance
+    res.classes['praj_batch_near_zero_point'] = cls_praj_batch_near_zero_point
     res.classes['unsorted_node_ids'] = cls_unsorted_node_ids
     res.classes['praj_minq_coupling'] = cls_praj_minq_coupling
     res.classes['praj_crack_closed_from_zero'] = cls_praj_crack_closed_from_zero
@@ -527,7 +695,9 @@ def contract_checks(res, items, table):
              'contract gamma_ok: effective loads after gamma_L and c grow with the scale factor, gamma_L > 0',
              'model aggregators: table maximum per point (a2 = own); class maximum per point or batch maximum (a3)',
              'contract look-up tables: binned notch law monotone in the load, table maximum = maximum absolute load',
-             'model knee per point (Layout.v, rows ordered (hysteresis, point)): N of row (h, i) = 1e3 (P_RAM / P_RAM_Z[i])^(1/d) with the knee of point i']
+             'model knee per point (Layout.v, rows ordered (hysteresis, point)): N of row (h, i) = 1e3 (P_RAM / P_RAM_Z[i])^(1/d) with the knee of point i',
+             'model decisions at the first point (Decide.v): where every compared load pair is separated by more than the tolerance 1e-12 at the first point and at point i, '
+             'the hystereses counted for point i in the batch (number, closed flags, runs, loads) are those of its single assessment']
     counts = dict.fromkeys(names, 0)
     curve_jobs, curve_meta = [], []
     knee_seen = set()
@@ -572,10 +742,29 @@ def contract_checks(res, items, table):
                         break
         if it['kind'] == 'batch' and not cls_unsorted_node_ids({'item': it}):     # known class: tables sorted by label, not by position
             b, i = sums[1], it['i']
-            if all(x.get(k_) for x in (a, b) for k_ in ('RAM_Lmax', 'RAJ_Lmax')):
+            tags = [t for t in ('RAM', 'RAJ') if (t + '_life') in a and (t + '_life') in b]     # the requested damage parameters (spec key want)
+            if tags and all(x.get(t + '_Lmax') for x in (a, b) for t in tags):
                 counts[names[6]] += 1
-                if not close(b['RAM_Lmax'][i], a['RAM_Lmax'][0], 1e-12) or not close(b['RAJ_Lmax'][i], a['RAJ_Lmax'][0], 1e-12):
-                    fail(names[6], {'item': it, 'table maximum batch/single': [b['RAM_Lmax'][i], a['RAM_Lmax'][0]]})
+                if any(not close(b[t + '_Lmax'][i], a[t + '_Lmax'][0], 1e-12) for t in tags):
+                    fail(names[6], {'item': it, 'table maximum batch/single': [[b[t + '_Lmax'][i], a[t + '_Lmax'][0]] for t in tags]})
+            # decisions of the HCM are taken on the first point's loads: they are the point's own decisions when both are clear of the tolerance
+            bs = it['specs'][1]
+            if tags and decisions_clear(bs['seq'], eff_factor(bs, 0)) and decisions_clear(bs['seq'], eff_factor(bs, i)):
+                counts[names[9]] += 1
+                for t in tags:
+                    ca, cb = a[t + '_col'], b[t + '_col']
+                    why = None
+                    if a[t + '_n_hyst'] != b[t + '_n_hyst']:
+                        why = {'hystereses single/batch': [a[t + '_n_hyst'], b[t + '_n_hyst']]}
+                    else:
+                        for col in ('is_closed_hysteresis', 'run_index', 'loads_min', 'loads_max'):
+                            x, y = ca[col][0], cb[col][i]
+                            if len(x) != len(y) or not all(close(u, v, 1e-12) or (math.isnan(u) and math.isnan(v)) for u, v in zip(x, y)):
+                                why = {'column': col, 'single': x[:8], 'batch': y[:8]}
+                                break
+                    if why:
+                        fail(names[9], dict({'item': it, 'branch': t, 'first point effective factor': eff_factor(bs, 0)}, **why))
+                        break
             km_b, km_a = b.get('RAJ_klass_max'), a.get('RAJ_klass_max')
             if km_b and km_a:
                 # the class maximum is a P_RAJ value from the iteratively filled Seeger-Beste tables: batch and single solves end on slightly
@@ -871,20 +1060,28 @@ def run(res):
                     'axioms: ClassicalDedekindReals.sig_forall_dec, sig_not_dec, functional_extensionality_dep (Coq Reals), Classical_Prop.classic']
     res.assumptions += ['float rounding is outside the theorems; relations are compared at 1e-9 relative, class-edge effects (1e-3..1e-1) are reported, not absorbed',
                         'loads of all points of a batch are positive multiples of one sequence (precondition of the vectorised assessment)',
-                        'P_RAJ crack-opening loop / class summation not modelled beyond the dependence on the shared class maximum']
+                        'P_RAJ crack-opening loop / class summation not modelled beyond the dependence on the shared class maximum',
+                        'separation of the compared load pairs (obligation model decisions at the first point, class hcm_abs_tolerance_first_node) is computed on a superset of what the HCM compares '
+                        '(absolute loads of all samples and 0, extents between any two of them), with a factor 4 on the tolerance for rounding; batches with an almost unloaded point are assessed with '
+                        'calculate_P_RAJ=False in the quick tier (the P_RAJ branch of such batches raises for one sequence in three: known finding praj-batch-near-zero-point)']
     res.cov['rule'] = ('cases: sequence = library test sequence (round numbers, loads on class edges) | the same jittered by <= 3 % and rescaled | random (2..16 samples, '
                        'amplitude 120..420, some with offset) | ties (random with repeated / nearly repeated extremes); parameters: load distribution normal/lognormal/blanket/none, P_A from the FKM table or free, P_L, R_m, material group, '
                        'R_z, K_p, c, G (0.05..30 1/mm: mild and sharp notches); per case the relations batch (2..5 points, ratios 0.2..3, uniform or per-point G with different component '
                        'curves, node_id labels 0..n-1 / offset / with gaps / not ascending, reference point at a random position; quick: 2 points compared, '
-                       'thorough: all), refine (0..3 samples per segment: interpolated or repeated), scale (c in 1+1e-4..2), rougher R_z, smaller P_A (one random pair; for every second case with a load distribution additionally all 6 adjacent pairs of the P_A table with '
+                       'thorough: all; plus one batch per case (2..4 points, calculate_P_RAJ off, thorough: every fourth case with both) in which one point is almost unloaded: '
+                       'ratio 1e-7.5..1e-10, thorough 1e-3..1e-15.5, at the first position in 5 of 7 cases -- the HCM decides on the first point\'s loads), refine (0..3 samples per segment: interpolated or repeated), scale (c in 1+1e-4..2), rougher R_z, smaller P_A (one random pair; for every second case with a load distribution additionally all 6 adjacent pairs of the P_A table with '
                        'scatter s_L up to 0.48 / 0.9 L_max or LSD_s up to 0.25), N_10<=N_50<=N_90 when P_A=0.5; '
                        'non-trivial = relation instance with a finite positive lifetime on one side (distinct spec pairs counted)')
     common.standard_proof_stage(res, 'C10')
 
     n_cases = 7 if quick else 95
     items = list(corpus_items())
-    for j in range(n_cases):
-        items += gen_items(rng, j, not quick)
+    cases = [gen_items(rng, j, not quick) for j in range(n_cases)]
+    for ci in cases:
+        items += ci
+    # ratio spread (drawn after the other relation instances, which therefore stay what they were for a given seed)
+    for j, ci in enumerate(cases):
+        items += gen_spread(rng, j, ci[0]['specs'][0], ci[0]['skind'], not quick)
     table, rejected, nontriv = evaluate(res, items)
     n_calls = len(table)
     res.add_cases(len(items), nontrivial=nontriv)
@@ -909,6 +1106,26 @@ def run(res):
         ids = sp.get('node_ids')
         lay['default 0..n-1' if not ids else 'ascending (offset / gaps)' if list(ids) == sorted(ids) else 'not ascending'] += 1
     res.cov['node_id_layouts'] = lay
+    # ratio spread: batches with an almost unloaded point, where it stands, how small it is, and how far the first point's compared load
+    # pairs are from the HCM's absolute tolerance (smallest difference between two distinct compared quantities, in units of the tolerance)
+    sp_b = {key(it['specs'][1]): it for it in items if it['kind'] == 'batch' and min(it['specs'][1]['ratios']) < 1e-2}
+    spread = {'batches': len(sp_b), 'almost_unloaded_point_first': 0, 'almost_unloaded_point_later': 0, 'with_P_RAJ': 0,
+              'log10_smallest_ratio': [], 'first_point_max_effective_load': [], 'first_point_min_pair_difference_over_tolerance': [],
+              'batch_call_raised': 0}
+    for k_, it in sp_b.items():
+        bs = it['specs'][1]
+        t = min(range(len(bs['ratios'])), key=lambda k: bs['ratios'][k])
+        spread['almost_unloaded_point_first' if t == 0 else 'almost_unloaded_point_later'] += 1
+        spread['with_P_RAJ'] += 0 if bs.get('want') == ['ram'] else 1
+        spread['log10_smallest_ratio'].append(round(math.log10(bs['ratios'][t]), 2))
+        rho0 = eff_factor(bs, 0)
+        spread['first_point_max_effective_load'].append(float('%.3g' % (rho0 * max(abs(v) for v in bs['seq']))))
+        spread['first_point_min_pair_difference_over_tolerance'].append(float('%.3g' % (rho0 * decision_margins(bs['seq'])[0] / HCM_TOL)))
+        spread['batch_call_raised'] += 1 if 'error' in table.get(k_, {}) else 0
+    for k_ in ('log10_smallest_ratio', 'first_point_max_effective_load', 'first_point_min_pair_difference_over_tolerance'):
+        v = sorted(spread[k_])
+        spread[k_] = v if len(v) <= 12 else {'min': v[0], 'median': v[len(v) // 2], 'max': v[-1]}
+    res.cov['ratio_spread'] = spread
     chains = [it for it in items if it.get('chain')]
     res.cov['pa_chain_pairs'] = len(chains)
     res.cov['pa_chain_pairs_finite'] = sum(1 for it in chains if nontrivial(it, [table[key(s_)] for s_ in it['specs']]))
